@@ -44,7 +44,8 @@ class Module:
         if '#slice:' in relpath:
             from .func_slice import apply as _apply_slice
             q_, _, tg_ = relpath.partition('#slice:')[2].partition(':')
-            self.dropped_lines = _apply_slice(self.tree, q_, [t for t in tg_.split(',') if t])
+            tg_, _, al_ = tg_.partition(':')
+            self.dropped_lines = _apply_slice(self.tree, q_, [t for t in tg_.split(',') if t], [a for a in al_.split(',') if a])
         self.lines = self.source.splitlines()
         self.functions = {}
         self.classes = {}
